@@ -83,6 +83,20 @@ def gen_history(rng: Rng, tier: str, kmax=3, allow_fixture=True, allow_real_sour
             if op["op"] == "writeall":
                 used.append(op["name"])
         sessions.append(s)
+    rd = rng.sub("dironly")
+    if len(sessions) >= 2 and rd.chance(0.08):
+        # two sessions in a row that add nothing but directories (each leaves a folder without streams), data before or after
+        first = rd.randint(0, len(sessions) - 2)
+        for j in (first, first + 1):
+            arc = "onlydirs%d_%s" % (j, gen.gen_component(rd, "ascii"))
+            sessions[j]["ops"] = [{"op": "writeall", "name": arc, "tree": [{"path": "p", "kind": "dir", "mode": 0o755, "mtime_ns": tree.gen_mtime_ns(rd)},
+                                                                          {"path": "p/q", "kind": "dir", "mode": 0o700, "mtime_ns": tree.gen_mtime_ns(rd)}]}]
+        if first + 2 >= len(sessions) and len(sessions) < kmax:
+            s_last = rw.gen_session(rd, "a", knobs, used + ["onlydirs"], nmax=3, maxlen=2000, password=sessions[-1].get("password"))
+            if s_last.get("header") == "crypt" and s_last.get("password") is None:
+                s_last["header"] = "enc"
+            s_last["ops"] = [op for op in s_last["ops"] if op["name"] not in used] or s_last["ops"]
+            sessions.append(s_last)
     if base is not None and sessions and rng.sub("emptyappend").chance(0.2):
         # an append session that adds nothing: the header of another writer's archive is parsed and written back as it is
         sessions[0]["ops"] = []
